@@ -27,11 +27,17 @@ LEVEL = "exploration"
 RULE = (
     "ops: a case is a generated table (1-6 columns of kinds int, float, bool, string key, integer key, unique id, text; 0-8 rows; "
     "optional missing values (None) in int/float/text columns; column names incl. blanks, delimiters and quotes; optional index column), "
-    "a second table sharing its key columns (0-6 rows, for joins), a third table with the same columns (0-4 rows, for appending) and "
-    "3 operations with generated arguments out of sorted, filtered, count, count_unique, distinct_values, filtered_by_column, "
-    "inner_join/joined, cross_join, appended, transposed, get_columns/[rows, columns], to_list(columns), with_new_column, with_new_header, "
-    "to_dict/columns.to_dict/array. Every result is compared (header, shape, rows, to_list) with the same operation on the list of rows and "
-    "the receiver is re-observed to be unchanged. roundtrip: a generated table (text cells over letters, digits, blank, comma, tab, both "
+    "a second table holding its key columns, some under a different name, optionally an id column of the same value type and its own "
+    "index (0-6 rows, for joins), a third table with the same columns in any order where an int column may be float and vice versa "
+    "(0-4 rows, for appending) and 3 operations with generated arguments out of sorted, filtered, count, count_unique, distinct_values, "
+    "filtered_by_column, inner_join/joined, cross_join, appended, transposed, get_columns/[rows, columns], to_list(columns), "
+    "with_new_column, with_new_header, to_dict/columns.to_dict/array. Joins are asked as natural join, with columns_self and "
+    "columns_other given as names or as positions (list or bare value, names differing between the tables), with only one of the two "
+    "given, and with neither (join on the two index columns; ValueError unless both tables have one). Every operation except "
+    "to_list(columns) and the dict/array observers is also run on the table built with index_name=. Every result is compared (header, "
+    "shape, rows, to_list) with the same operation on the list of rows, a result's index_name must be readable and, when set, name the "
+    "first column with unique values (dropped after cross_join, transposed and selections without the index column, kept by get_columns "
+    "and selections with it), and the receiver is re-observed to be unchanged. roundtrip: a generated table (text cells over letters, digits, blank, comma, tab, both "
     "quotes, '|', ';', plus empty, blank-edged and literal-looking cells) is written with Table.write as tsv, csv, tsv.gz, csv.gz, csv.bz2, "
     "txt with sep ';' or '|', json, pickle and loaded with load_table, and rendered with to_csv/to_tsv and parsed with load_delimited. "
     "Non-trivial (ops) = at least 2 rows, a duplicated key value, at least two column kinds and at least one operation evaluated; "
@@ -43,10 +49,16 @@ ASSUMPTIONS = [
     "floats are finite (no nan/inf); integers fit easily in int64; numeric cells are compared by value with ==, bool/number/str/None classes must agree (an int column appended to a float column may come back as float of equal value)",
     "sort keys are columns without missing values; reverse columns are a subset of the sort columns (or given alone); sorting is asked only of tables with at least one row; ties are expected in original order (stable), reported under its own signature",
     "filter/count callbacks return genuine bool; ordering comparisons are only made on columns without missing values; string expressions are used only when all column names are identifiers",
-    "the key columns of the two joined tables have the same kind; non-key column names of the second table do not collide with the first table's names or the prefix",
+    "the key columns of the two joined tables have the same kind (and value type for id columns); a key column may have another name in the second table; non-key column names of the second table do not collide with the first table's names or the prefix",
+    "inner_join result (docstring, tests/test_util/test_table.py::test_inner_join_col_naming, test_joined_diff_indexing): header = the receiver's header followed by the other table's columns that are not in columns_other, each with col_prefix prepended, in the other table's order; one row per pair (receiver row, other row) with equal key tuples, receiver order first, then other order; columns given as int are positions in the header of the table they are given for (an index column is reported first); the position 0 given as a bare int is a column index like any other",
+    "inner_join with only one of columns_self/columns_other: the same column labels are used for both tables (source comment, doc/cookbook/tables.rst joined(columns_self=...)); it is asked only with key columns named alike in both tables, and as positions only where these name the same columns in both tables",
+    "inner_join without key columns and use_index=True (default) joins on the two index columns when both tables have one (docstring); otherwise it must refuse with ValueError",
+    "index column (Table docstring: 'row identifiers ... All column values must be unique'; Columns.order: reported first): whether sorted, filtered, inner_join, appended, with_new_column, with_new_header, filtered_by_column keep the index is not documented and not asserted, only that index_name of the result can be read and, if set, names the first column and its values are unique; cross_join and transposed drop it (source comments, test_transposed), get_columns keeps it unless with_index=False, a [rows, columns] selection keeps it exactly when the index column is selected; index_name of a result is read before its header (a table filled after construction moves the index column to the front only then)",
+    "row slices of an indexed table are asked only when the index values are text: with integer index values a slice bound is looked up as a label first (DictArrayTemplate.interpret_index), so a row number is ambiguous",
+    "appended: tables may list the same columns in any order; the result follows the receiver's column order and cells are matched by column name; an int column appended to a float column (or the reverse) is compared by value",
     "transposed(): the column used as header must have unique values (otherwise the documented ValueError is the expected outcome); it is asked only when the stringified values are unique, non-blank and differ from the new column name",
     "column selection (get_columns, [:, columns]) and row slices are asked only of tables with at least one row: Table.__getitem__ deliberately leaves out columns that hold no data, so a zero-row selection has no header to compare",
-    "operations other than column/row selection, to_list and round trips are run on tables without an index column, except inner_join where the left table may carry one",
+    "to_list(columns) and the dict/array observers are run on tables without an index column (to_list(columns) of an indexed table goes through get_columns and so includes the index column; what it should return is not documented)",
     "delimited round trip, text column: a loaded cell must be the written text; a loaded non-str value is accepted when Python's int/float/complex parser or the literals True/False/None read the written text as that value (type inference of a delimited file; e.g. a column of '12','7' may come back as int, 'j' as 1j)",
     "delimited round trip, text column holding non-numeric cells: a cell whose whole text is one Python literal is legitimately read as that literal ('1,2' -> (1, 2), '()' -> (), a fully quoted cell such as '\"x\"' -> 'x'); this inference is pinned by tests/test_util/test_table.py::test_cast_str_to_array, so such cells are compared with ast.literal_eval of the text. Text that is not a literal (names, operators, calls) must come back as written",
     "delimited round trip: a missing value (None) is written as an empty cell and may come back as '' or None; numeric cells must come back as int/float of equal value, bool cells as bool; leading/trailing blanks of cells must survive (csv module semantics)",
@@ -109,7 +121,7 @@ def _rows(cols, n):
 
 
 @st.composite
-def table_st(draw, max_rows=8, allow_missing=True, with_keys=True, min_rows=0):
+def table_st(draw, max_rows=8, allow_missing=True, with_keys=True, min_rows=0, uid_weight=4):
     plain = draw(st.booleans())
     free_names = list(draw(st.permutations(ID_NAMES if plain else ID_NAMES[:4] + ODD_NAMES)))
     spec = []  # (name, kind)
@@ -118,7 +130,7 @@ def table_st(draw, max_rows=8, allow_missing=True, with_keys=True, min_rows=0):
             spec.append((KEY_S[0] if plain else draw(st.sampled_from(KEY_S)), "ks"))
         if draw(st.integers(0, 9)) < 4:
             spec.append((KEY_I[0] if plain else draw(st.sampled_from(KEY_I)), "ki"))
-    if draw(st.integers(0, 9)) < 4:
+    if draw(st.integers(0, 9)) < uid_weight:
         spec.append((UID[0] if plain else draw(st.sampled_from(UID)), "uid"))
     nfree = draw(st.integers(0 if spec else 1, 3))
     for i in range(nfree):
@@ -130,23 +142,65 @@ def table_st(draw, max_rows=8, allow_missing=True, with_keys=True, min_rows=0):
     return {"header": [nm for nm, _ in spec], "kinds": [k for _, k in spec], "rows": _rows(cols, n)}
 
 
+def _uid_column(t):
+    for ci, k in enumerate(t["kinds"]):
+        if k == "uid":
+            return [r[ci] for r in t["rows"]]
+    return None
+
+
 @st.composite
 def op_cases(draw):
-    t = draw(table_st())
-    # second table: same key columns, plus extras
+    t = draw(table_st(uid_weight=6))
+    # second table: the key columns of the first (some under a different name), plus extras,
+    # optionally a unique id column of the same value type as the first table's (usable as index)
     keys = [(nm, k) for nm, k in zip(t["header"], t["kinds"]) if k in ("ks", "ki")]
-    spec = list(keys) or [("k", "ks")]
+    spec, pairs = [], []
+    for nm, k in keys:
+        other = nm + "2" if draw(st.integers(0, 3)) == 0 else nm
+        spec.append((other, k))
+        pairs.append([nm, other])
+    if not spec:
+        spec = [("k", "ks")]
     extras = list(draw(st.permutations(EXTRA)))
     for i in range(draw(st.integers(0, 2))):
         spec.append((extras[i], draw(st.sampled_from(["int", "text", "float", "ki"]))))
+    t_uid = _uid_column(t)
+    j_uid = None
+    if draw(st.integers(0, 9)) < (8 if t_uid is not None else 2):
+        j_uid = draw(st.sampled_from(["jid", "j id"]))
+        spec.append((j_uid, "uid"))
     spec = list(draw(st.permutations(spec)))
     n2 = draw(st.integers(0, 6))
-    cols = [draw(_column(k, n2, True)) for _, k in spec]
+    cols = []
+    for _, k in spec:
+        if k != "uid":
+            cols.append(draw(_column(k, n2, True)))
+            continue
+        # same value type as the first table's ids, shifted so that the two id sets overlap partly
+        perm = draw(st.permutations(list(range(n2)))) if n2 else []
+        shift = draw(st.sampled_from([0, 0, 1, 2]))
+        as_text = isinstance(t_uid[0], str) if t_uid else draw(st.booleans())
+        off = 0 if as_text or not t_uid else min(t_uid)
+        cols.append([f"r{i + shift}" if as_text else i + off + shift for i in perm])
     j = {"header": [nm for nm, _ in spec], "kinds": [k for _, k in spec], "rows": _rows(cols, n2), "title": "U"}
-    # third table: same columns as the first
+    if t_uid is not None and j_uid is not None:
+        t_uid_name = t["header"][t["kinds"].index("uid")]
+        pairs.append([t_uid_name, j_uid])
+    j["keys"] = pairs
+    j["index"] = draw(st.integers(0, 3)) > 0  # honoured when the table has an id column and at least one row
+    # third table: the same columns as the first, in any order; an int column may be float there and vice versa
     n3 = draw(st.integers(0, 4))
-    cols = [draw(_column(k, n3, True, uid_prefix="s")) for k in t["kinds"]]
-    p = {"header": list(t["header"]), "kinds": list(t["kinds"]), "rows": _rows(cols, n3), "title": draw(st.sampled_from(["second", "t 2", ""]))}
+    swap = {"int": "float", "float": "int"}
+    pk = [swap[k] if k in swap and draw(st.integers(0, 3)) == 0 else k for k in t["kinds"]]
+    cols = [draw(_column(k, n3, True, uid_prefix="s")) for k in pk]
+    order = list(draw(st.permutations(list(range(len(pk)))))) if draw(st.booleans()) else list(range(len(pk)))
+    p = {
+        "header": [t["header"][i] for i in order],
+        "kinds": [pk[i] for i in order],
+        "rows": _rows([cols[i] for i in order], n3),
+        "title": draw(st.sampled_from(["second", "t 2", ""])),
+    }
     t["title"] = draw(st.sampled_from(["", "", "first"]))
     ops = []
     for _ in range(3):
@@ -158,9 +212,10 @@ def op_cases(draw):
                 "c": draw(st.integers(0, 10**6)),
                 "f1": draw(st.booleans()),
                 "f2": draw(st.booleans()),
+                "ix": draw(st.integers(0, 2)) > 0,  # run this operation on the table built with index_name= (when it has an id column and rows)
             }
         )
-    t["index"] = draw(st.booleans())  # honoured only where the ASSUMPTIONS allow an index and a uid column exists
+    t["index"] = draw(st.integers(0, 3)) > 0  # honoured only when an id (uid) column exists and the table has rows
     return {"t": t, "j": j, "p": p, "ops": ops}
 
 
@@ -257,7 +312,44 @@ def observe_rows(table):
     return [[col[i] for col in cols] for i in range(n)]
 
 
-def compare(s: Soft, sig, table, want_header, want_rows, what, api=True):
+def check_index(s: Soft, sig, table, want, what):
+    """what is documented about the index column of a table: reading ``index_name`` works, the named column
+    exists, is reported first and holds unique values.  ``want``: "any" (kept or dropped is not specified),
+    "dropped", or ("kept", name).  Returns (usable, index_name)"""
+    ok, got = s.call(sig + "/index_name", lambda: table.index_name)
+    if not ok:
+        return False, None
+    if want == "dropped":
+        s.check(got is None, sig + "/index-not-dropped", f"{what}: index_name {got!r}")
+    elif want != "any":
+        s.eq(got, want[1], sig + "/index-not-kept", f"{what}: index_name")
+    if got is None:
+        s.cls("result-index:none")
+        return True, None
+    s.cls("result-index:kept")
+    ok, hdr = s.call(sig + "/observe", lambda: list(table.header))
+    if not ok:
+        return False, got
+    if not s.check(got in hdr, sig + "/index-not-a-column", f"{what}: index_name {got!r} header {hdr!r}"):
+        return False, got
+    s.check(hdr[0] == got, sig + "/index-not-first", f"{what}: index_name {got!r} header {hdr!r}")
+    ok, vals = s.call(sig + "/observe", lambda: table.columns[got].tolist())
+    if ok:
+        s.check(len({norm(v) for v in vals}) == len(vals), sig + "/index-not-unique", f"{what}: index column {got!r} holds {vals!r}")
+    return True, got
+
+
+def compare(s: Soft, sig, table, want_header, want_rows, what, api=True, index="skip"):
+    if index != "skip":
+        # index_name is read first: a table made with index_name= but filled later only moves that column
+        # to the front once the index has been looked at (Columns.order)
+        usable, ix = check_index(s, sig, table, index, what)
+        if not usable:
+            return False
+        if ix is not None and ix in want_header and want_header[0] != ix:
+            pos = [list(want_header).index(ix)] + [i for i, c in enumerate(want_header) if c != ix]
+            want_header = [want_header[i] for i in pos]
+            want_rows = [[r[i] for i in pos] for r in want_rows]
     ok, hdr = s.call(sig + "/observe", lambda: list(table.header))
     if not ok:
         return False
@@ -281,8 +373,21 @@ def compare(s: Soft, sig, table, want_header, want_rows, what, api=True):
     return good
 
 
+def indexed_view(tab):
+    """the table as reported when built with index_name=: the index column comes first"""
+    h0 = list(tab["header"])
+    h = model_header(tab, True)
+    v = dict(tab)
+    v["header"] = h
+    v["kinds"] = [tab["kinds"][h0.index(c)] for c in h]
+    v["rows"] = model_rows(tab, True)
+    v["ix"] = index_of(tab)
+    return v
+
+
 def brief(tab):
-    return f"header={tab['header']!r} rows={tab['rows']!r}"[:500]
+    ix = f"index_name={tab['ix']!r} " if tab.get("ix") else ""
+    return f"{ix}header={tab['header']!r} rows={tab['rows']!r}"[:500]
 
 
 # ---- predicates (shared by filtered / count) ---------------------------
@@ -392,20 +497,42 @@ def exec_ops(case) -> Soft:
                 dup_key = True
     if dup_key:
         s.cls("duplicate-keys")
+    # the same table built with index_name= (only when it has an id column and rows)
+    TI, tv = None, None
+    if index_of(t) is not None:
+        tv = indexed_view(t)
+        ok, TI = s.call("make_table[index]", make_real, t, True)
+        if ok and compare(s, "make_table[index]", TI, tv["header"], tv["rows"], brief(tv), index=("kept", tv["ix"])):
+            s.cls("index")
+        else:
+            TI = None
     done = 0
     for step in case["ops"]:
         fn = globals()["op_" + step["op"]]
-        ran = fn(s, step, t, j, p, T, J, P)
+        # cases recorded before the "ix" field existed used the index in get_columns and in every second inner_join
+        old_rule = step["op"] == "get_columns" or (step["op"] == "inner_join" and step["c"] % 2 == 0)
+        use_ix = TI is not None and step["op"] in INDEXED_OPS and step.get("ix", old_rule)
+        recv, model = (TI, tv) if use_ix else (T, t)
+        ran = fn(s, step, model, j, p, recv, J, P)
         if ran:
             done += 1
             s.cls("op:" + step["op"])
+            if use_ix:
+                s.cls("indexed:" + step["op"])
             # receivers unchanged
-            compare(s, step["op"] + "/receiver-mutated", T, header, rows, f"receiver after {step['op']}", api=False)
+            compare(s, step["op"] + "/receiver-mutated", recv, model["header"], model["rows"], f"receiver after {step['op']}", api=False)
             if step["op"] in ("inner_join", "cross_join"):
                 compare(s, step["op"] + "/receiver-mutated", J, j["header"], j["rows"], f"other after {step['op']}", api=False)
     s.evals = max(1, done)
     s.nontrivial = nrows >= 2 and dup_key and len(set(kinds)) >= 2 and done > 0
     return s
+
+
+# operations that are also run on the table built with index_name=
+INDEXED_OPS = {
+    "sorted", "filtered", "count", "count_unique", "distinct_values", "filtered_by_column", "inner_join", "cross_join",
+    "appended", "transposed", "get_columns", "slice", "with_new_column", "with_new_header",
+}
 
 
 def sortable_columns(tab):
@@ -454,6 +581,8 @@ def op_sorted(s, step, t, j, p, T, J, P):
     ok, res = s.call("sorted" + circ, lambda: T.sorted(**kw))
     if not ok:
         return True
+    if t.get("ix") and not check_index(s, "sorted", res, "any", what)[0]:
+        return True
     ok, hdr = s.call("sorted/observe", lambda: list(res.header))
     ok2, got = s.call("sorted/observe", observe_rows, res)
     if not (ok and ok2):
@@ -481,14 +610,24 @@ def _prefix_related(vals):
     return any(b.startswith(a) for a, b in zip(vals, vals[1:]))
 
 
+def _index_listed_later(t, columns):
+    """circumstance: the columns argument of an indexed table names the index column after another column"""
+    ix = t.get("ix")
+    return bool(ix) and isinstance(columns, (list, tuple)) and ix in list(columns)[1:]
+
+
 def op_filtered(s, step, t, j, p, T, J, P):
     header, rows = t["header"], t["rows"]
     desc, columns, cb, model = build_predicate(t, step)
     want = [r for r in rows if model(r)]
     kw = {} if columns is None else {"columns": columns}
-    ok, res = s.call("filtered", lambda: T.filtered(cb, **kw))
+    sig = "filtered"
+    if _index_listed_later(t, columns):
+        sig = "filtered[index-column-listed-later]" if callable(cb) else "filtered[expression, index-column-listed-later]"
+        s.cls("columns:index-column-listed-later")
+    ok, res = s.call(sig, lambda: T.filtered(cb, **kw))
     if ok:
-        compare(s, "filtered", res, header, want, f"filtered {desc} on {brief(t)}")
+        compare(s, sig, res, header, want, f"filtered {desc} on {brief(t)}", index="any" if t.get("ix") else "skip")
         s.cls("filtered:none" if not want else "filtered:all" if len(want) == len(rows) else "filtered:some")
         s.cls("filtered:expr" if isinstance(cb, str) else "filtered:callable")
     return True
@@ -499,9 +638,13 @@ def op_count(s, step, t, j, p, T, J, P):
     desc, columns, cb, model = build_predicate(t, step)
     want = sum(1 for r in rows if model(r))
     kw = {} if columns is None else {"columns": columns}
-    ok, res = s.call("count", lambda: T.count(cb, **kw))
+    sig = "count"
+    if _index_listed_later(t, columns):
+        sig = "count[index-column-listed-later]" if callable(cb) else "count[expression, index-column-listed-later]"
+        s.cls("columns:index-column-listed-later")
+    ok, res = s.call(sig, lambda: T.count(cb, **kw))
     if ok:
-        s.eq(int(res), want, "count/value", f"count {desc} on {brief(t)}")
+        s.eq(int(res), want, sig + "/value", f"count {desc} on {brief(t)}")
     return True
 
 
@@ -544,12 +687,16 @@ def op_distinct_values(s, step, t, j, p, T, J, P):
         want = {norm(r[cols[0]]) for r in rows}
     else:
         want = {tuple(norm(r[ci]) for ci in cols) for r in rows}
-    ok, res = s.call("distinct_values", lambda: T.distinct_values(arg))
+    sig = "distinct_values"
+    if _index_listed_later(t, arg):
+        sig = "distinct_values[index-column-listed-later]"
+        s.cls("columns:index-column-listed-later")
+    ok, res = s.call(sig, lambda: T.distinct_values(arg))
     if ok:
-        ok, got = s.call("distinct_values/observe", lambda: {(norm(k) if len(cols) == 1 else tuple(norm(e) for e in k)) for k in res})
+        ok, got = s.call(sig + "/observe", lambda: {(norm(k) if len(cols) == 1 else tuple(norm(e) for e in k)) for k in res})
         if ok:
-            s.eq(got, want, "distinct_values/set", f"distinct_values({arg!r}) on {brief(t)}")
-            s.eq(len(res), len(want), "distinct_values/size", f"distinct_values({arg!r}) on {brief(t)}")
+            s.eq(got, want, sig + "/set", f"distinct_values({arg!r}) on {brief(t)}")
+            s.eq(len(res), len(want), sig + "/size", f"distinct_values({arg!r}) on {brief(t)}")
     return True
 
 
@@ -565,11 +712,18 @@ def op_filtered_by_column(s, step, t, j, p, T, J, P):
         return len({repr(norm(v)) for v in values}) == len(values)
 
     keep = [ci for ci in range(len(header)) if test([r[ci] for r in rows])]
-    ok, res = s.call("filtered_by_column", lambda: T.filtered_by_column(lambda col: test(col.tolist())))
+    sig = "filtered_by_column"
+    index = "skip"
+    if t.get("ix"):
+        index = "any"
+        if header.index(t["ix"]) not in keep:
+            sig += "[index-column-not-selected]"
+            s.cls("filtered_by_column:index-column-not-selected")
+    ok, res = s.call(sig, lambda: T.filtered_by_column(lambda col: test(col.tolist())))
     if ok:
         want_rows = [[r[ci] for ci in keep] for r in rows] if keep else []
         if keep:
-            compare(s, "filtered_by_column", res, [header[ci] for ci in keep], want_rows, f"filtered_by_column(mode {mode}) on {brief(t)}")
+            compare(s, sig, res, [header[ci] for ci in keep], want_rows, f"filtered_by_column(mode {mode}) on {brief(t)}", index=index)
         else:
             ok, hdr = s.call("filtered_by_column/observe", lambda: list(res.header))
             if ok:
@@ -577,67 +731,149 @@ def op_filtered_by_column(s, step, t, j, p, T, J, P):
     return True
 
 
+def key_pairs(t, j):
+    """[(name in the first table, name in the second)] of the columns the two tables can be joined on"""
+    pairs = j.get("keys")
+    if pairs is None:  # cases recorded before key columns could differ in name
+        pairs = [[nm, nm] for nm, k in zip(t["header"], t["kinds"]) if k in ("ks", "ki") and nm in j["header"]]
+    return [tuple(pr) for pr in pairs if pr[0] in t["header"] and pr[1] in j["header"]]
+
+
+def _key_arg(names, header, as_int, bare):
+    arg = [header.index(c) for c in names] if as_int else list(names)
+    return arg[0] if bare and len(arg) == 1 else arg
+
+
 def op_inner_join(s, step, t, j, p, T, J, P):
     header, rows = t["header"], t["rows"]
-    shared = [nm for nm, k in zip(header, t["kinds"]) if k in ("ks", "ki") and nm in j["header"]]
-    if not shared:
-        return False
-    a, b = step["a"], step["b"]
-    variant = a % 5
-    k = 1 + b % len(shared)
-    keys = shared[:k] if step["f1"] else shared[-k:]
-    prefix = "right_" if step["c"] % 3 else "r:"
-    left = T
-    use_index = t.get("index") and index_of(t) is not None and step["c"] % 2 == 0
-    lt_header, lt_rows = header, rows
-    if use_index:
-        ok, left = s.call("make_table[index]", make_real, t, True)
-        if not ok:
+    pairs = key_pairs(t, j)
+    a, b, c = step["a"], step["b"], step["c"]
+    variant = a % 8
+    prefix = "right_" if c % 3 else "r:"
+    # the right-hand table may carry an index too
+    right, rt = J, j
+    if index_of(j) is not None and (c // 6) % 4:
+        rt = indexed_view(j)
+        ok, right = s.call("make_table[index]", make_real, j, True)
+        if not ok or not compare(s, "make_table[index]", right, rt["header"], rt["rows"], brief(rt), index=("kept", rt["ix"])):
             return True
-        lt_header, lt_rows = model_header(t, True), model_rows(t, True)
-        s.cls("join:indexed-left")
+    rh, rrows = rt["header"], rt["rows"]
+    lix, rix = t.get("ix"), rt.get("ix")
+    if variant == 6 and not (lix and rix) and b % 4:
+        variant = 1  # the refusal without two indexes is asked only now and then
+    elif lix and rix and variant in (0, 2, 4, 7):
+        variant = 6  # both tables indexed: ask the index default more often
+    if not pairs and variant != 6:
+        return False
+    same = [pr for pr in pairs if pr[0] == pr[1]]
+    pool = same if variant in (0, 3, 5) else pairs
+    if variant != 6 and not pool:
+        return False
     if variant == 0:
-        keys = list(shared)  # natural join: every shared column is a key
-        call = lambda: left.joined(J, col_prefix=prefix)  # noqa: E731
-        desc = "joined(other)"
-    elif variant == 1:
-        arg = keys[0] if len(keys) == 1 and step["f2"] else keys
-        call = lambda: left.inner_join(J, columns_self=arg, columns_other=arg, col_prefix=prefix)  # noqa: E731
-        desc = f"inner_join(columns_self={arg!r}, columns_other={arg!r})"
-    elif variant == 2:
-        call = lambda: left.joined(J, columns_self=keys, columns_other=keys, col_prefix=prefix)  # noqa: E731
-        desc = f"joined(columns_self={keys!r}, columns_other={keys!r})"
-    elif variant == 3:
-        call = lambda: left.joined(J, columns_self=keys, col_prefix=prefix)  # noqa: E731
-        desc = f"joined(columns_self={keys!r})"
+        chosen = list(same)  # natural join: every column of the same name is a key
+    elif variant == 6:
+        chosen = [(lix, rix)]  # the two index columns
     else:
-        call = lambda: left.inner_join(J, columns_self=keys, columns_other=keys, use_index=False, col_prefix=prefix)  # noqa: E731
-        desc = f"inner_join({keys!r}, {keys!r}, use_index=False)"
-    li = [lt_header.index(c) for c in keys]
-    ri = [j["header"].index(c) for c in keys]
-    rest = [i for i, c in enumerate(j["header"]) if c not in keys]
+        k = 1 + b % min(2, len(pool))
+        rot = (b // 2) % len(pool)
+        chosen = (pool[rot:] + pool[:rot])[:k]
+    ks, ko = [pr[0] for pr in chosen], [pr[1] for pr in chosen]
+    bare = step["f2"]
+    form = (a // 8) % 4  # names/names, positions/positions, names/positions, positions/names
+    self_int, other_int = form in (1, 3), form in (1, 2)
+    tag, expect_error = "", False
+    if variant == 0:
+        if step["f2"]:
+            call = lambda: T.joined(right, col_prefix=prefix)  # noqa: E731
+            desc = "joined(other)"
+        else:
+            call = lambda: T.inner_join(right, use_index=False, col_prefix=prefix)  # noqa: E731
+            desc = "inner_join(other, use_index=False)"
+    elif variant == 6:
+        # no key given: the documented default joins on the two index columns; without both there is nothing to
+        # join on and the method refuses with ValueError
+        call = lambda: T.inner_join(right, col_prefix=prefix)  # noqa: E731
+        desc = "inner_join(other)"
+        tag = "[index-default]"
+        expect_error = not (lix and rix)
+    elif variant in (3, 5):
+        # one side given: "the same column labels will be used for both tables"; positions are used only
+        # where they name the same columns in both tables
+        hdr_g, hdr_o, names = (header, rh, ks) if variant == 3 else (rh, header, ko)
+        pos = [hdr_g.index(c) for c in names]
+        as_int = self_int and all(i < len(hdr_o) and hdr_o[i] == hdr_g[i] for i in pos)
+        arg = _key_arg(names, hdr_g, as_int, bare)
+        kw = {"columns_self" if variant == 3 else "columns_other": arg, "col_prefix": prefix}
+        via_joined = step["f1"]
+        call = lambda: (T.joined if via_joined else T.inner_join)(right, **kw)  # noqa: E731
+        desc = f"{'joined' if via_joined else 'inner_join'}(other, {kw!r})"
+        tag = "[one-side-given]"
+        if arg == 0 and isinstance(arg, int):
+            tag = "[bare-zero]"
+        s.cls("join:one-side-given")
+    else:
+        arg_s = _key_arg(ks, header, self_int, bare)
+        arg_o = _key_arg(ko, rh, other_int, bare)
+        kw = {"columns_self": arg_s, "columns_other": arg_o, "col_prefix": prefix}
+        if variant == 4:
+            kw["use_index"] = False
+        via_joined = variant == 2
+        call = lambda: (T.joined if via_joined else T.inner_join)(right, **kw)  # noqa: E731
+        desc = f"{'joined' if via_joined else 'inner_join'}(other, {kw!r})"
+        if any(isinstance(x, int) and x == 0 for x in (arg_s, arg_o)):
+            tag = "[bare-zero]"  # the position 0 given as a plain int
+        if self_int or other_int:
+            s.cls("join:positional-keys")
+    if ks != ko:
+        s.cls("join:different-key-names")
+    if (lix and lix in ks[1:]) or (rix and rix in ko[1:]):
+        tag += "[index-key-listed-later]"
+        s.cls("join:index-key-listed-later")
+    sig = ("natural_join" if variant == 0 else "inner_join") + tag
+    if "[bare-zero]" in tag or "[index-key-listed-later]" in tag:
+        pass  # one signature per circumstance
+    elif lix and rix:
+        sig += "[indexed-both]"
+    elif lix:
+        sig += "[indexed-left]"
+    elif rix:
+        sig += "[indexed-right]"
+    what = f"{desc} of {brief(t)} with {brief(rt)}"
+    if expect_error:
+        ok, res = s.call(sig, call, allowed=(ValueError,))
+        s.check(not ok, "inner_join[index-default]/joined-without-indexes", f"{what}: no ValueError")
+        s.cls("join:index-default-refused")
+        return True
+    li = [header.index(x) for x in ks]
+    ri = [rh.index(x) for x in ko]
+    rest = [i for i, x in enumerate(rh) if x not in ko]
     want = []
-    for r in lt_rows:
-        for q in j["rows"]:
+    for r in rows:
+        for q in rrows:
             if [r[i] for i in li] == [q[i] for i in ri]:
                 want.append(list(r) + [q[i] for i in rest])
-    want_header = list(lt_header) + [prefix + j["header"][i] for i in rest]
-    sig = "natural_join" if variant == 0 else "inner_join"
-    if use_index:
-        sig += "[indexed-left]"
+    want_header = list(header) + [prefix + rh[i] for i in rest]
     ok, res = s.call(sig, call)
     if ok:
-        compare(s, sig, res, want_header, want, f"{desc} prefix={prefix!r} of {brief(t)} with {brief(j)}")
-        lk = [tuple(r[i] for i in li) for r in lt_rows]
-        rk = [tuple(q[i] for i in ri) for q in j["rows"]]
+        compare(s, sig, res, want_header, want, what, index="any" if lix else "skip")
+        lk = [tuple(r[i] for i in li) for r in rows]
+        rk = [tuple(q[i] for i in ri) for q in rrows]
         both = set(lk) & set(rk)
         if any(lk.count(x) > 1 and rk.count(x) > 1 for x in both):
             s.cls("join:duplicates-both-sides")
         elif any(rk.count(x) > 1 for x in both):
             s.cls("join:duplicates-right")
         s.cls("join:empty-result" if not want else "join:rows")
-        if len(keys) > 1:
+        if len(ks) > 1:
             s.cls("join:two-keys")
+        if variant == 6:
+            s.cls("join:index-default")
+        if lix:
+            s.cls("join:indexed-left")
+        if rix:
+            s.cls("join:indexed-right")
+    if right is not J:
+        compare(s, "inner_join/receiver-mutated", right, rh, rrows, "indexed other after inner_join", api=False)
     return True
 
 
@@ -654,7 +890,8 @@ def op_cross_join(s, step, t, j, p, T, J, P):
     sig = "cross_join[zero-row]" if not want else "cross_join"
     ok, res = s.call(sig, call)
     if ok:
-        compare(s, sig, res, want_header, want, f"cross_join prefix={prefix!r} of {brief(t)} with {brief(j)}")
+        # the index of the left table is dropped: a cross join repeats its values (comment in Table.cross_join)
+        compare(s, sig, res, want_header, want, f"cross_join prefix={prefix!r} of {brief(t)} with {brief(j)}", index="dropped" if t.get("ix") else "skip")
     return True
 
 
@@ -664,20 +901,38 @@ def op_appended(s, step, t, j, p, T, J, P):
     twice = step["f1"]
     as_list = step["f2"]
     tables = [P, P] if twice else [P]
+    # the appended table may list the same columns in another order: cells are matched by column name and
+    # the result follows the receiver's order ("All tables must have the same columns")
+    pos = [p["header"].index(c) for c in header]
+    prows = [[r[i] for i in pos] for r in p["rows"]]
     titles = [t.get("title", "")] + [p.get("title", "")] * len(tables)
-    groups = [rows] + [p["rows"]] * len(tables)
+    groups = [rows] + [prows] * len(tables)
     if new is None:
         want = [list(r) for g in groups for r in g]
         want_header = list(header)
     else:
         want = [[ti] + list(r) for ti, g in zip(titles, groups) for r in g]
         want_header = [new] + list(header)
-    ok, res = s.call("appended", lambda: T.appended(new, tables) if as_list else T.appended(new, *tables))
+    sig, index = "appended", "skip"
+    if t.get("ix"):
+        index = "any"
+        ci = header.index(t["ix"])
+        ids = [norm(r[ci]) for g in groups for r in g]
+        if len(set(ids)) < len(ids):
+            # the appended rows repeat values of the receiver's index column
+            sig = "appended[index-values-repeated]"
+            s.cls("appended:index-values-repeated")
+    ok, res = s.call(sig, lambda: T.appended(new, tables) if as_list else T.appended(new, *tables))
     if ok:
-        compare(s, "appended", res, want_header, want, f"appended({new!r}, {len(tables)} table(s), list form {as_list}) of {brief(t)} with {brief(p)}")
+        compare(s, sig, res, want_header, want, f"appended({new!r}, {len(tables)} table(s), list form {as_list}) of {brief(t)} with {brief(p)}", index=index)
         compare(s, "appended/receiver-mutated", P, p["header"], p["rows"], "appended table afterwards", api=False)
         if not rows or not p["rows"]:
             s.cls("appended:zero-row-member")
+        if p["header"] != header:
+            s.cls("appended:other-column-order")
+        kinds_by_name = dict(zip(p["header"], p["kinds"]))
+        if p["rows"] and rows and any(kinds_by_name[c] != k for c, k in zip(header, t["kinds"])):
+            s.cls("appended:int-with-float-column")
     return True
 
 
@@ -687,6 +942,8 @@ def op_transposed(s, step, t, j, p, T, J, P):
         return False
     uid = [ci for ci, k in enumerate(t["kinds"]) if k == "uid"]
     ci = uid[0] if uid and step["a"] % 4 else step["a"] % len(header)
+    if t.get("ix") and step["a"] % 2:
+        ci = (step["a"] // 2) % len(header)  # on an indexed table: more often a column other than the index
     vals = [r[ci] for r in rows]
     new = "new" if step["b"] % 2 else "old header"
     arg = None if ci == 0 and step["f1"] else header[ci]
@@ -714,10 +971,17 @@ def op_transposed(s, step, t, j, p, T, J, P):
     others = [i for i in range(len(header)) if i != ci]
     want_header = [new] + names
     want = [[header[i]] + [r[i] for r in rows] for i in others]
-    ok, res = s.call("transposed", call)
+    sig, index = "transposed", "skip"
+    if t.get("ix"):
+        # "on transpose, a row index_name becomes a column": the result has no index
+        index = "dropped"
+        if header[ci] != t["ix"]:
+            sig = "transposed[indexed, other column as header]"
+            s.cls("transposed:indexed-other-header")
+    ok, res = s.call(sig, call)
     if ok:
         if others:
-            compare(s, "transposed", res, want_header, want, f"transposed({new!r}, {arg!r}) of {brief(t)}")
+            compare(s, sig, res, want_header, want, f"transposed({new!r}, {arg!r}) of {brief(t)}", index=index)
         else:
             ok, hdr = s.call("transposed/observe", lambda: list(res.header))
             if ok:
@@ -730,19 +994,12 @@ def op_get_columns(s, step, t, j, p, T, J, P):
     header, rows = t["header"], t["rows"]
     if not rows:
         return False  # see ASSUMPTIONS: column selection is not asked of zero-row tables
-    with_index = bool(t.get("index")) and index_of(t) is not None
     table = T
-    if with_index:
-        ok, table = s.call("make_table[index]", make_real, t, True)
-        if not ok:
-            return True
-        s.cls("index")
-        compare(s, "make_table[index]", table, model_header(t, True), model_rows(t, True), brief(t))
     cols = _pick_columns(t, step["a"], step["b"], kmax=len(header))
     if step["f1"]:
         cols = list(reversed(cols))
     names = [header[ci] for ci in cols]
-    ix = index_of(t) if with_index else None
+    ix = t.get("ix")
     variant = step["c"] % 3
     sig = "get_columns"
     if variant == 0:
@@ -758,13 +1015,15 @@ def op_get_columns(s, step, t, j, p, T, J, P):
         call = lambda: table.get_columns(names, with_index=False)  # noqa: E731
         want_names = names
         desc = f"get_columns({names!r}, with_index=False)"
-    if ix in want_names:
-        # a selected index column stays the index of the result and is therefore reported first (Columns.order)
-        want_names = [ix] + [c for c in want_names if c != ix]
+    index = "skip"
+    if ix:
+        # a selected index column stays the index of the result and is therefore reported first (Columns.order);
+        # get_columns includes it unless with_index=False; a selection without it has no index
+        index = ("kept", ix) if ix in want_names else "dropped"
     want = [[r[header.index(c)] for c in want_names] for r in rows]
     ok, res = s.call(sig, call)
     if ok:
-        compare(s, sig, res, want_names, want, f"{desc} of {brief(t)} index={ix!r}", api=ix is None or ix in want_names)
+        compare(s, sig, res, want_names, want, f"{desc} of {brief(t)}", index=index)
     return True
 
 
@@ -772,6 +1031,9 @@ def op_slice(s, step, t, j, p, T, J, P):
     header, rows = t["header"], t["rows"]
     if not rows:
         return False
+    ix = t.get("ix")
+    if ix and not isinstance(rows[0][header.index(ix)], str):
+        return False  # see ASSUMPTIONS: with integer index values a row number is ambiguous
     n = len(rows)
     lo = step["a"] % n
     hi = lo + 1 + step["b"] % (n - lo)
@@ -785,10 +1047,13 @@ def op_slice(s, step, t, j, p, T, J, P):
         call = lambda: T[lo:hi, names]  # noqa: E731
         want_names = names
         desc = f"[{lo}:{hi}, {names!r}]"
+    index = "skip"
+    if ix:
+        index = ("kept", ix) if ix in want_names else "dropped"
     want = [[r[header.index(c)] for c in want_names] for r in rows[lo:hi]]
     ok, res = s.call("getitem-rows", call)
     if ok:
-        compare(s, "getitem-rows", res, want_names, want, f"{desc} of {brief(t)}")
+        compare(s, "getitem-rows", res, want_names, want, f"{desc} of {brief(t)}", index=index)
     return True
 
 
@@ -812,6 +1077,9 @@ def op_to_list(s, step, t, j, p, T, J, P):
 def op_with_new_column(s, step, t, j, p, T, J, P):
     header, rows, kinds = t["header"], t["rows"], t["kinds"]
     numeric = [ci for ci, k in enumerate(kinds) if k in ("int", "float", "ki") and all(r[ci] is not None for r in rows)]
+    if t.get("ix"):
+        # an integer id column takes part in the arithmetic of an indexed table
+        numeric += [ci for ci, k in enumerate(kinds) if k == "uid" and rows and isinstance(rows[0][ci], int)]
     texty = [ci for ci, k in enumerate(kinds) if k in ("text", "ks") and all(r[ci] is not None for r in rows)]
     new = "derived" if step["b"] % 2 else "new col"
     mode = step["a"] % 4
@@ -844,9 +1112,13 @@ def op_with_new_column(s, step, t, j, p, T, J, P):
         return False
     want = [list(r) + [v] for r, v in zip(rows, want_vals)]
     kw = {} if columns is None else {"columns": columns}
-    ok, res = s.call("with_new_column", lambda: T.with_new_column(new, cb, **kw))
+    sig = "with_new_column"
+    if callable(cb) and _index_listed_later(t, columns):
+        sig = "with_new_column[index-column-listed-later]"
+        s.cls("columns:index-column-listed-later")
+    ok, res = s.call(sig, lambda: T.with_new_column(new, cb, **kw))
     if ok:
-        compare(s, "with_new_column", res, list(header) + [new], want, f"with_new_column({new!r}, {desc} {cb if isinstance(cb, str) else ''} columns={columns!r}) of {brief(t)}")
+        compare(s, sig, res, list(header) + [new], want, f"with_new_column({new!r}, {desc} {cb if isinstance(cb, str) else ''} columns={columns!r}) of {brief(t)}", index="any" if t.get("ix") else "skip")
     return True
 
 
@@ -860,9 +1132,15 @@ def op_with_new_header(s, step, t, j, p, T, J, P):
         call = lambda: T.with_new_header(old[0], new[0])  # noqa: E731
     else:
         call = lambda: T.with_new_header(old, new)  # noqa: E731
-    ok, res = s.call("with_new_header", call)
+    sig, index = "with_new_header" + ("[zero-row]" if not rows else ""), "skip"
+    if t.get("ix"):
+        index = "any"
+        if t["ix"] in old:
+            sig = "with_new_header[index-column-renamed]"
+            s.cls("with_new_header:index-column-renamed")
+    ok, res = s.call(sig, call)
     if ok:
-        compare(s, "with_new_header" + ("[zero-row]" if not rows else ""), res, want_header, rows, f"with_new_header({old!r}, {new!r}) of {brief(t)}")
+        compare(s, sig, res, want_header, rows, f"with_new_header({old!r}, {new!r}) of {brief(t)}", index=index)
     return True
 
 
@@ -1235,7 +1513,7 @@ KNOWN_PREDICATES = {}
 
 META = {
     "technique": "Hypothesis-generated tables and operation arguments against a list-of-rows model written in the check; write/load round trips through real files in every supported delimited, compressed, JSON and pickle format",
-    "level_text": "Each run builds thousands of small tables with mixed column kinds, duplicate keys, missing values, zero rows and awkward text (delimiters, quotes, blanks, literal-looking cells), applies generated sorts, filters, counts, joins, appends, transpositions, column/row selections and derived columns and compares header, shape and every cell with the same operation on a plain list of rows; every table is also written in ten file formats and read back, comparing header and every cell.",
-    "level_note": "Trusts the row-list model in the check (about 300 lines). Bounded to 8 rows, 6 columns, ASCII text without line breaks; title/legend text itself is not asserted.",
+    "level_text": "Each run builds thousands of small tables with mixed column kinds, duplicate keys, missing values, zero rows and awkward text (delimiters, quotes, blanks, literal-looking cells), applies generated sorts, filters, counts, joins (natural, by name, by position, differently named keys, one side given, index default), appends (any column order, int with float), transpositions, column/row selections and derived columns, on the plain table and on the same table built with an index column, and compares header, shape, every cell and the documented state of the result's index with the same operation on a plain list of rows; every table is also written in ten file formats and read back, comparing header and every cell.",
+    "level_note": "Trusts the row-list model in the check (about 400 lines). Bounded to 8 rows, 6 columns, ASCII text without line breaks; title/legend text itself is not asserted.",
     "design_ref": "DESIGN.md section 1, C20",
 }
